@@ -1,0 +1,25 @@
+//go:build verif
+
+// Contracts for package powerstore, read by /verif/govc. Comments only.
+
+package powerstore
+
+// C15: when EC's own tables are consulted (the EC fallback of the committee rule), the power store rebuilds them from a
+// base that follows the same look-back rule as the committee itself: the table of the next instance, and the epoch of
+// the head finalized by the certificate look-back instances before it (the bootstrap epoch while inside the window).
+//@ pred epochsInRange(ps *Store) = 0 <= ps.manifest.BootstrapEpoch && ps.manifest.BootstrapEpoch <= 4611686018427387903 && 0 <= ps.manifest.EC.Finality && ps.manifest.EC.Finality <= 4611686018427387903
+
+//@ func (*Store).f3PowerBase
+//@   property C15
+//@   modifies auto
+//@   maypanic
+//@   at Get 1
+//@     before[the_base_certificate_is_lookback_instances_before_the_next_instance] res(Latest, 1) != nil && (res(Latest, 1).GPBFTInstance < 18446744073709551615 ==> baseInstance == res(Latest, 1).GPBFTInstance + 1)
+//@          && (ps.manifest.InitialInstance + ps.manifest.CommitteeLookback <= 18446744073709551615 ==> baseInstance >= ps.manifest.InitialInstance + ps.manifest.CommitteeLookback && arg(2) == baseInstance - ps.manifest.CommitteeLookback)
+//@          && arg(0) == ps.cs
+//@   at return 0
+//@     before[without_certificates_the_base_is_the_bootstrap_tipset_and_the_initial_instance] arg(2) == nil && res(Latest, 1) == nil && epochsInRange(ps) ==> arg(1) == ps.manifest.InitialInstance && arg(0) == ps.manifest.BootstrapEpoch - ps.manifest.EC.Finality
+//@     before[with_certificates_the_base_instance_is_the_next_one] arg(2) == nil && res(Latest, 1) != nil && res(Latest, 1).GPBFTInstance < 18446744073709551615 ==> arg(1) == res(Latest, 1).GPBFTInstance + 1
+//@     before[inside_the_lookback_window_the_base_epoch_is_still_the_bootstrap_epoch] arg(2) == nil && !called(Get, 1) && epochsInRange(ps) ==> arg(0) == ps.manifest.BootstrapEpoch - ps.manifest.EC.Finality
+//@     before[past_the_window_every_next_instance_uses_its_lookback_certificate] arg(2) == nil && res(Latest, 1) != nil && ps.manifest.InitialInstance + ps.manifest.CommitteeLookback <= 18446744073709551615
+//@          && res(Latest, 1).GPBFTInstance < 18446744073709551615 && res(Latest, 1).GPBFTInstance + 1 >= ps.manifest.InitialInstance + ps.manifest.CommitteeLookback ==> called(Get, 1)
